@@ -131,6 +131,18 @@ CHECKS["C10"] = ("exploration",
     "purely logical (iterations delimited by the wrapped epoll_wait); levels fed only by descriptors are judged "
     "only when all ready descriptors fit one epoll_wait", "DESIGN.md C10")
 
+CHECKS["C01"] = ("exploration",
+    "SPSC history oracle under a controlled scheduler that uses the ring code's ThreadSanitizer instrumentation as "
+    "yield points; real ThreadSanitizer with the chunk-magic release/acquire as the only writer-to-reader edge; "
+    "free-running two-thread and two-process stress",
+    "Every chunk is a pure function of (seed, index); the reader recomputes length and bytes of each chunk it gets, "
+    "so order, exactly-once and tearing are decided per read and conservation at quiescence. Interleavings are "
+    "driven at the granularity of individual instrumented accesses by a seeded serialising scheduler (uniform and "
+    "PCT policies); memory-order weakening, invisible on x86, is decided by ThreadSanitizer with write_pt treated "
+    "as a relaxed atomic and read_pt as release/acquire.",
+    "x86-64 TSO only; volatile modelled as described; schedules sampled (thousands of distinct ones per run), not "
+    "enumerated", "DESIGN.md C01")
+
 REASON_PENDING = "check not registered yet in this revision (implementation in progress, see DESIGN.md section 7)"
 
 
